@@ -84,11 +84,12 @@ func (fr *Frame) assertsAfterNamed(x *ssa.Call, calleeName string, same func(*ss
 		env := fr.contractEnv(fr.params, nil, fr.st, fr.entry)
 		base := env.resolve
 		blk, cur, st := fr.blk, fr.env, fr.st
-		env.resolve = func(name string) *CV {
-			if v := fr.resolveLocal(name, blk, cur, st); v != nil {
+		_ = st
+		env.resolve = func(name string, ce *Env) *CV {
+			if v := fr.resolveLocal(name, blk, cur, ce.st); v != nil {
 				return v
 			}
-			return base(name)
+			return base(name, ce)
 		}
 		t, err := env.evalBool(a.C.E)
 		if err != nil {
@@ -351,6 +352,18 @@ func (fr *Frame) havocTarget(env *Env, m Clause, x ssa.Instruction) (err error) 
 		switch v.K {
 		case VSlice:
 			el := v.T.Underlying().(*types.Slice).Elem()
+			if s.Name == "$obj" {
+				// the whole backing array may change
+				fr.checkWrite(x, v.Ref, v.Off, IntLit(0))
+				seen := map[string]bool{}
+				for _, k := range cellKinds(el) {
+					if !seen[k] {
+						seen[k] = true
+						fr.st.setRow(k, v.Ref, Fresh("row!"+baseKind(k), ArrS(IntS, kindSort(k))))
+					}
+				}
+				return nil
+			}
 			fr.checkWrite(x, v.Ref, v.Off, Mul(IntLit(sizeOf(el)), v.Len))
 			seen := map[string]bool{}
 			for _, k := range cellKinds(el) {
